@@ -23,7 +23,7 @@ RULE = ('receiver + 0..3 others (single table / list / tuple form), each 1..4 x 
         'layout recipe (CSR/CSC/COO/dense/lists, unsorted indices, stored zeros, sort_order histories); a systematic sweep of '
         'modes x metadata profile x pattern and of the list form precedes the random stream; '
         'non-trivial = at least two operands sharing or missing at least one id, or a refused case; distinct by case hash')
-TRUSTED = ['hand-written model coq/Model/Merge.v tied to biom/table.py:3391-3412,3698-4023 and biom/util.py:195-197 by this correspondence run',
+TRUSTED = ['hand-written model coq/Model/Merge.v tied to biom/table.py:3397-3418,3704-4038 and biom/util.py:195-197 by this correspondence run',
            'harness.tables.Coder: id codes respect python string order (sorted() = sort by code)',
            'extraction (ExtrOcamlBasic only) + ocaml/driver_tail.ml, cross-checked against vm_compute on a sample']
 ASSUMPTIONS = ['operands are coherent tables (C05) with at least one observation and one sample',
@@ -193,12 +193,39 @@ def gen(rng, tier):
             yield gen_case(rng, form='single', sample='union', observation='union', profile='all', smf=f, omf=f, opat='partial', spat='partial')
             yield gen_case(rng, form='single', sample='union', observation='intersection', profile='neither', smf=f, omf=f)
     for _ in range(n):
-        yield gen_case(rng)
+        if rng.random() < 0.15:       # extra weight on the fast path (metadata-free unions), pairs and lists
+            yield gen_case(rng, sample='union', observation='union', profile='neither')
+        else:
+            yield gen_case(rng)
+    if tier == 'thorough':
+        for c in exhaustive_small():
+            yield c
+
+
+def exhaustive_small():
+    """every ordered non-empty id list over two-element pools for both operands and both axes x 4 mode
+    combinations x metadata on neither / receiver / other / both; values make overlapping cells cancel or add"""
+    import itertools
+    lists = lambda p: [[p + '1'], [p + '2'], [p + '1', p + '2'], [p + '2', p + '1']]
+    md = lambda ids, tag: [{'m': tag + i} for i in ids]
+    for oa, sa, ob, sb in itertools.product(lists('o'), lists('s'), lists('o'), lists('s')):
+        va = {(o, s): float(1 + 2 * int(o[1]) + 5 * int(s[1])) for o in oa for s in sa}
+        ma = [[va[o, s] for s in sa] for o in oa]
+        mb = [[(-va[o, s] if (o, s) in va and o == 'o1' else 3.0) for s in sb] for o in ob]
+        for sm in MODES[:2]:
+            for om in MODES[:2]:
+                for pa, pb in ((0, 0), (1, 0), (0, 1), (1, 1)):
+                    yield {'specs': [{'oids': oa, 'sids': sa, 'mat': ma, 'omd': md(oa, 'a') if pa else None,
+                                      'smd': None, 'type': None, 'layout': ['csr']},
+                                     {'oids': ob, 'sids': sb, 'mat': mb, 'omd': None,
+                                      'smd': md(sb, 'b') if pb else None, 'type': None, 'layout': ['csc']}],
+                           'form': 'single', 'sample': sm, 'observation': om, 'smf': 'default', 'omf': 'default',
+                           'patterns': [], 'profile': 'exhaustive'}
 
 
 # ---------------------------------------------------------------- implementation
 def takes_fast(case):
-    """the rule of table.py:3837-3845 read off the operands' content"""
+    """the rule of table.py:3843-3851 read off the operands' content"""
     cs = [T.spec_content(s) for s in case['specs']]
     no_md = all(c['omd'] is None and c['smd'] is None for c in cs)
     ignore = case['smf'] == 'None' and case['omf'] == 'None'
